@@ -70,6 +70,43 @@ def make(cases_path, files_path, seed, fmts=('bin', 'xml')):
                 out.write(json.dumps({'id': f'{rec["n"]}.bin.{order}', 'origin': {'label': rec['label'], 'order': order}, 'fmt': 'bin', 'bytes_hex': data.hex(),
                                       'expected': expected, 'tags': ['r-bin', order, leg['name']], 'sig': f':r-bin:{leg["name"]}' + (f'={leg["value"]["v"]}' if leg['value']['t'] == 'Enum' else '')}) + '\n')
                 n += 1
+            # ---- binary: another class that carries the TARGET property (explicitly) earlier in the same file;
+            #      what the reader remembers about one class must not change how the next class's legacy chunk is read
+            other = rec.get('other')
+            if other and 'bin' in fmts:
+                props = {leg['name']: to_wire_value(leg['value'], rng)}
+                if new:
+                    props[new['wire_name']] = to_wire_value(new['value'], rng)
+                try:
+                    model = refbin.model_from_dump({'roots': [
+                        {'class': other['class'], 'name': 'other', 'props': {other['wire_name']: to_wire_value(other['value'], rng)}, 'children': []},
+                        {'class': rec['class'], 'name': 'n', 'props': props, 'children': []}]}, rng, {'force': {'chunk_order': 'grouped'}})
+                    insts = {c['body']['class_name']: c['body']['class_id'] for c in model['chunks'] if c['name'] == 'INST'}
+                    oi = next(i for i, c in enumerate(model['chunks']) if c['name'] == 'PROP' and c['body']['class_id'] == insts[other['class']] and c['body']['name'] == other['wire_name'])
+                    li = next(i for i, c in enumerate(model['chunks']) if c['name'] == 'PROP' and c['body']['class_id'] == insts[rec['class']] and c['body']['name'] == leg['name'])
+                    if oi > li:
+                        model['chunks'][oi], model['chunks'][li] = model['chunks'][li], model['chunks'][oi]
+                    data = refbin.encode(model, variant=ENC_VARIANT)
+                    exp2 = {'roots': [{'class': other['class'], 'name': 'other', 'props': {other['back']: other['value']}, 'children': []}, expected['roots'][0]]}
+                    out.write(json.dumps({'id': f'{rec["n"]}.bin.other-class-first', 'origin': {'label': rec['label'], 'order': 'other-class-first'}, 'fmt': 'bin', 'bytes_hex': data.hex(),
+                                          'expected': exp2, 'tags': ['r-bin', 'other-class-first', leg['name']], 'sig': f':r-bin:{leg["name"]}' + (f'={leg["value"]["v"]}' if leg['value']['t'] == 'Enum' else '')}) + '\n')
+                    n += 1
+                except (refbin.RefError, StopIteration, KeyError):
+                    pass
+            if other and 'xml' in fmts:
+                try:
+                    elems = [xml_elem(leg['name'], leg['wire_ty'], leg['value'], True)]
+                    if new:
+                        elems.append(xml_elem(new['wire_name'], new['wire_ty'], new['value'], False))
+                    oe = xml_elem(other['wire_name'], other['wire_ty'], other['value'], False)
+                    doc = (f'<roblox version="4"><Item class="{other["class"]}" referent="RBX0"><Properties><string name="Name">other</string>{oe}</Properties></Item>'
+                           f'<Item class="{rec["class"]}" referent="RBX1"><Properties><string name="Name">n</string>' + ''.join(elems) + '</Properties></Item></roblox>')
+                    exp2 = {'roots': [{'class': other['class'], 'name': 'other', 'props': {other['back']: other['value']}, 'children': []}, expected['roots'][0]]}
+                    out.write(json.dumps({'id': f'{rec["n"]}.xml.other-class-first', 'origin': {'label': rec['label'], 'order': 'other-class-first'}, 'fmt': 'xml', 'text': doc,
+                                          'expected': exp2, 'tags': ['r-xml', 'other-class-first', leg['name']], 'sig': f':r-xml:{leg["name"]}' + (f'={leg["value"]["v"]}' if leg['value']['t'] == 'Enum' else '')}) + '\n')
+                    n += 1
+                except ValueError:
+                    pass
             # ---- XML, both element orders
             for order in (('legacy-first', 'new-first') if new else ('legacy-only',)) if 'xml' in fmts else ():
                 try:
